@@ -16,6 +16,20 @@ def cases(tier):
                         if names is graphs.NAMES2 and (wt == "float" or fi > 0):
                             continue
                         yield dict(edges=edges_of(H), wt=wt, opts={})
+    # subpath constraints (greedy on and off: the greedy result must be rejected when it violates a constraint) and ignored edges
+    for n in (3, 4):
+        for gi, G in enumerate(graphs.dags(n)):
+            if n == 4 and gi % 2:
+                continue
+            E = list(G.edges())
+            two = [[list(a), list(b)] for a in E for b in E if a[1] == b[0]]
+            for H, f in list(graphs.flows_from_paths(G))[:2]:
+                for ci, cst in enumerate(two[:3] + [[list(e)] for e in E]):
+                    for opts in ({}, {"optimize_with_greedy": False}):
+                        yield dict(edges=edges_of(H), wt="int", opts=opts, cons=[cst])
+                for e in E[:2]:
+                    if len(E) >= 2:
+                        yield dict(edges=edges_of(H), wt="int", opts={}, ign=[list(e)])
     # option variants on a fixed family (greedy off, lower-bound options)
     for n in (3, 4):
         for gi, G in enumerate(graphs.dags(n)):
@@ -33,8 +47,15 @@ def check(case):
     G = mkgraph(case["edges"])
     flow = {(u, v): f for u, v, f in case["edges"]}
     R = [O.route_mult(p) for p in O.routes_dag(G)]
-    opt = O.fd_min(R, flow, wt)
-    m = fp.MinFlowDecomp(G, flow_attr="flow", weight_type=wt, optimization_options=dict(case["opts"]))
+    cons = [[tuple(e) for e in c] for c in case.get("cons", [])]
+    ign = [tuple(e) for e in case.get("ign", [])]
+    opt = O.fd_min(R, flow, wt, ignore=ign, constraints=cons or None)
+    kw = {}
+    if cons:
+        kw["subpath_constraints"] = cons
+    if ign:
+        kw["elements_to_ignore"] = ign
+    m = fp.MinFlowDecomp(G, flow_attr="flow", weight_type=wt, optimization_options=dict(case["opts"]), **kw)
     ok = m.solve()
     if not ok or not m.is_solved():
         return dict(ok=False, nontrivial=True, fingerprint="MinFlowDecomp unsolved on a positive conserving DAG flow",
@@ -45,7 +66,13 @@ def check(case):
         r, why = is_route(G, p, simple=True)
         if not r:
             return dict(ok=False, nontrivial=True, fingerprint="MinFlowDecomp returned a non-route", what=why, detail=dict(paths=paths))
+    for cst in cons:
+        if not any(all((a, b) in list(zip(p, p[1:])) for (a, b) in cst) for p in paths):
+            return dict(ok=False, nontrivial=True, fingerprint="MinFlowDecomp: a subpath constraint is contained in no returned path", what="constraint %s, paths %s on %s opts=%s" % (cst, paths, case["edges"], case["opts"]),
+                        detail=dict(paths=paths))
     for e, fe in flow.items():
+        if e in ign:
+            continue
         if not close(explained(paths, weights, e), fe, wt):
             return dict(ok=False, nontrivial=True, fingerprint="MinFlowDecomp does not explain the flow", what="edge %s: %s vs %s" % (e, explained(paths, weights, e), fe),
                         detail=dict(paths=paths, weights=weights))
